@@ -1,5 +1,6 @@
 import NomtModel.Store.PrepareSyncTheorems
 import NomtModel.Store.PrepareSyncExample
+import NomtModel.Store.GenFnCheck
 /-!
 # C04 (topic: `bitbox::DB::prepare_sync`) — the CONTENT clause of the crash theorem for the merkle page table
 
@@ -33,6 +34,20 @@ theorem T4_prepare_sync_wal_covers_ht {hash : Bytes → Nat} {debug : Bool} {S :
     (ht' : List (Nat × Bytes)) (hp : ht'.Perm res.ht) :
     recover hash seqn T res.wal.asSlice.toArray = .ok (applyHt (dataOffset S.mm.buckets) T ht') :=
   (prepareSync_wal_covers_ht_iff hB hC hs h ht' hp).2 hcov
+
+/-- **T4_prepare_sync_partial_writeout** (every image between the meta fsync and the end of the write-out): with
+covering diffs, recovery of the sync's WAL on the OLD table with ANY sub-list `sub` of the returned pages already applied
+(the pages of `write_ht` that reached the disk before the crash: any subset, any order, 4 KiB pages atomic) gives exactly
+the table of the completed write-out.  (`ht'` ranges over the orders of the returned list, so `sub` is an arbitrary
+sub-multiset in an arbitrary order.) -/
+theorem T4_prepare_sync_partial_writeout {hash : Bytes → Nat} {debug : Bool} {S : St} {T : Wal.Table} {seqn : Nat}
+    {ds : List Dirty} {b0 : Builder} {res : Res} (hB : Before hash S T) (hC : ChangesOK hash S T ds)
+    (hs : seqn < 2 ^ 32) (h : prepareSync hash debug S seqn ds b0 = .ok res)
+    (hcov : ∀ x ∈ ups ds res.cells, Covers (T.pages.getD x.1 []) x.2)
+    (ht' : List (Nat × Bytes)) (hp : ht'.Perm res.ht) (sub : List (Nat × Bytes)) (hsub : sub.Sublist ht') :
+    recover hash seqn (applyHt (dataOffset S.mm.buckets) T sub) res.wal.asSlice.toArray =
+      .ok (applyHt (dataOffset S.mm.buckets) T ht') :=
+  prepareSync_partial_writeout hB hC hs h hcov ht' hp sub hsub
 
 /-- **T4_prepare_sync_wal_covers_ht_iff**: the coverage hypothesis is NECESSARY — redo equals the write-out iff every
 diff covers the differences. -/
@@ -132,6 +147,14 @@ theorem T4_prepare_sync_contract_static {hN : Nat → Nat} {lim : Nat} (ds : Lis
     (hI : Inv hN V) (hD : NoDup V) (hnd : (ds.map (fun d => pidN d.pid)).Nodup) :
     (∀ d ∈ ds, AgreesAt hN V d) ↔ ContractFrom hN lim V ds :=
   ⟨contractFrom_of_static ds V hn hI hD hnd, static_of_contractFrom ds V hn hI hD hnd⟩
+
+/-- **T4_prepare_sync_fn_ties**: the two integer functions of the CURRENT source text the mirror depends on are the ones it
+uses: `full_entry(hash)` (the meta byte `set_full` writes) and `num_meta_byte_pages(num_pages)` (= `data_page_offset`, the
+page number of bucket 0) — regenerated from `meta_map.rs` / `ht_file.rs` on every run by `tools/gen_functions.py`. -/
+theorem T4_prepare_sync_fn_ties :
+    (∀ h, GenFn.full_entry h = some (Wal.fullEntry h).toNat) ∧
+    (∀ n, n < 2 ^ 32 - 4095 → GenFn.num_meta_byte_pages n = some (dataOffset n)) :=
+  ⟨GenFnCheck.full_entry_eq, GenFnCheck.num_meta_byte_pages_eq⟩
 
 /-! ## non-vacuity and counterexamples (hash ≡ 0, two buckets) -/
 
